@@ -147,6 +147,7 @@ def run_oracle(run, pid, why, short=False):
         except Exception as e:
             r1 = {"crash": "%s: %s" % (type(e).__name__, str(e)[:300]), "cases": 0, "failures": []}
         res["cases"] += r1.get("cases") or 0
+        res["seconds"] = round((res.get("seconds") or 0.0) + float(r1.get("seconds") or 0.0), 2)
         res["failures"] += [dict(f, half=name) for f in (r1.get("failures") or [])]
         res["bound"] = (res["bound"] + (" || " if res["bound"] else "") + ("[%s] " % name if len(mods) > 1 else "") + (r1.get("bound") or "")).strip()
         if r1.get("crash"):
